@@ -19,7 +19,9 @@ OPS = ['>', '=', '<', '>=', '<=']
 CLASS_SYMS = ['$', '&', 'X', 'M', 'any atom', 'heteroatom', 'heavy atom']
 ELEM_SYMS = ['C', 'O', 'N', 'H', 'Pt', 'S', 'P', 'Cl', 'Si', 'Ru']
 LOWER_SYMS = ['c', 'n', 'o']
-LABEL_POOL = ['c1', 'c2', 'c3', 'a', 'b', 'x_1', 'Atom2', '_z', 'q9', 'C', 'H1', 'o', 'n7', 'lab', 'r2d2', 'A_b_C', 'm', 'k0']
+# `AtomLabel` (the grammar's own rule name) is an ordinary label since the repair of FM2; it is in the pool so that random
+# fragments and alpha-renamings use it in every position
+LABEL_POOL = ['c1', 'c2', 'c3', 'a', 'b', 'x_1', 'Atom2', '_z', 'q9', 'C', 'H1', 'o', 'n7', 'lab', 'r2d2', 'A_b_C', 'm', 'k0', 'AtomLabel']
 
 
 def atomtype_text(t):
@@ -79,22 +81,39 @@ def tokens(frag):
 
 
 def render(frag, rng=None, plain=False):
+    return render_gaps(frag, rng, plain)[0]
+
+
+def render_gaps(frag, rng=None, plain=False):
+    """(text, lead, gaps): gaps[k] is the filler written after token k (the last one is the trailing filler) - the
+    `Layout` of PGA/Spec/RingLayout.lean"""
     toks = tokens(frag)
-    out = []
-    for k, t in enumerate(toks):
-        if k:
-            glue_ok = t in '{},' or toks[k - 1] in '{},!'
-            if plain or rng is None:
-                out.append(' ')
-            elif glue_ok and rng.random() < 0.4:
-                pass
-            else:
-                out.append(''.join(rng.choice([' ', ' ', ' ', '\n', '\t', '  ', '\n    ']) for _ in range(rng.choice([1, 1, 1, 2]))))
-        out.append(t)
-    text = ''.join(out)
+    gaps = []
+    for k in range(1, len(toks)):
+        t = toks[k]
+        glue_ok = t in '{},' or toks[k - 1] in '{},!'
+        if plain or rng is None:
+            gaps.append(' ')
+        elif glue_ok and rng.random() < 0.4:
+            gaps.append('')
+        else:
+            gaps.append(''.join(rng.choice([' ', ' ', ' ', '\n', '\t', '  ', '\n    ']) for _ in range(rng.choice([1, 1, 1, 2]))))
+    lead, trail = '', ''
     if rng is not None and not plain:
-        text = rng.choice(['', ' ', '\n', '\n  \t']) + text + rng.choice(['', ' ', '\n'])
-    return text
+        lead, trail = rng.choice(['', ' ', '\n', '\n  \t']), rng.choice(['', ' ', '\n'])
+    gaps.append(trail)
+    text = lead + ''.join(t + g for t, g in zip(toks, gaps))
+    return text, lead, gaps
+
+
+def opaque(g):
+    """PGA.Ring.Opaque for the shipped filler list: two or more filler characters, or a newline / tab among them"""
+    return len(g) >= 2 or '\n' in g or '\t' in g
+
+
+def gaps_alike(g1, g2):
+    """PGA.C08.GapsAlike: the pair of layouts falls under the proved theorem C08_layout_irrelevant_partial"""
+    return len(g1) == len(g2) and all(a == b or (opaque(a) and opaque(b)) for a, b in zip(g1[:-1], g2[:-1]))
 
 
 def labels_of(frag):
@@ -131,7 +150,7 @@ def rand_cn(rng, small=True):
     return (op, rng.choice([0, 1, 1, 2, 2, 3, 4, 5, 6] if small else list(range(10))))
 
 
-def rand_sym(rng, lower_ok=False, weights=None):
+def rand_sym(rng, lower_ok=True, weights=None):
     r = rng.random()
     if r < 0.62:
         return rng.choice(['C', 'C', 'C', 'C', 'O', 'N', 'H', 'H', 'Pt'] + ELEM_SYMS)
@@ -142,7 +161,7 @@ def rand_sym(rng, lower_ok=False, weights=None):
     return rng.choice(['C', 'Qq', 'Cl'])
 
 
-def rand_atomtype(rng, lower_ok=False, star_ok=True):
+def rand_atomtype(rng, lower_ok=True, star_ok=True):
     t = {'prefix': None, 'sym': rand_sym(rng, lower_ok), 'suffix': None}
     if rng.random() < 0.25:
         t['prefix'] = rng.choice(ATOM_PREFIX)
@@ -153,7 +172,7 @@ def rand_atomtype(rng, lower_ok=False, star_ok=True):
     return t
 
 
-def rand_cons(rng, lower_ok=False):
+def rand_cons(rng, lower_ok=True):
     k = rng.random()
     neg = rng.random() < 0.35
     if k < 0.5:
@@ -177,7 +196,7 @@ def rand_molprefix(rng):
     return out
 
 
-def rand_fragment(rng, natoms=None, lower_ok=False, stereo_ok=True):
+def rand_fragment(rng, natoms=None, lower_ok=True, stereo_ok=True):
     n = natoms or rng.choice([1, 1, 2, 2, 2, 3, 3, 3, 4, 4, 5, 6, 7, 8])
     labels = rng.sample(LABEL_POOL, n)
     items = []
@@ -257,11 +276,20 @@ def dup_label_fragment(rng):
 
 
 def atomlabel_fragment(rng):
-    """an atom that is called `AtomLabel` (finding FM2 when another bonded atom follows)"""
-    l2 = rng.choice(LABEL_POOL)
-    items = [('atom', dict(prefix=None, sym='C', suffix=None, label='AtomLabel', chain=[], bond=None))]
-    if rng.random() < 0.8:
+    """an atom that is called `AtomLabel` with bonded atoms after it (the class of the repaired finding FM2), also declared
+    twice / referred to from a ring bond"""
+    l2, l3 = rng.sample([x for x in LABEL_POOL if x != 'AtomLabel'], 2)
+    items = [('atom', dict(prefix=None, sym='C', suffix=rng.choice([None, None, '?']), label='AtomLabel', chain=[], bond=None))]
+    if rng.random() < 0.9:
         items.append(('atom', dict(prefix=None, sym=rng.choice(['C', 'H', 'O']), suffix=None, label=l2, chain=[], bond=('single', 'AtomLabel'))))
+        r = rng.random()
+        if r < 0.3:
+            items.append(('atom', dict(prefix=None, sym=rng.choice(['C', 'H', '$']), suffix=None, label=l3, chain=[], bond=(rng.choice(['single', 'any']), rng.choice([l2, 'AtomLabel'])))))
+        elif r < 0.5:
+            items.append(('atom', dict(prefix=None, sym='C', suffix='?', label='AtomLabel', chain=[], bond=(rng.choice(['single', 'double', 'any']), l2))))
+        elif r < 0.65:
+            items.append(('atom', dict(prefix=None, sym='C', suffix='?', label=l3, chain=[], bond=('any', l2))))
+            items.append(('ringbond', l3, 'any', 'AtomLabel'))
     return {'molprefix': [], 'name': 'al', 'items': items}
 
 
@@ -283,6 +311,17 @@ def small_fragments(thorough=False):
             out.append(frag([atom(s, suffix=sf)]))
         for p in ATOM_PREFIX:
             out.append(frag([atom(s, prefix=p)]))
+    # lower-case (aromatic) element symbols (F22, repaired): symbol x suffix / prefix, pairs over an aromatic / any bond
+    for s in LOWER_SYMS + ['pt']:
+        for sf in [None] + SUFFIX:
+            out.append(frag([atom(s, suffix=sf)]))
+        for p in ATOM_PREFIX:
+            out.append(frag([atom(s, prefix=p)]))
+        for s2 in ['c', 'C', 'H', 'n']:
+            for bw in ['aromatic', 'any', 'single', 'ring']:
+                out.append(frag([atom(s, suffix='?', label='c1'), atom(s2, suffix='?', label='c2', bond=(bw, 'c1'))]))
+        for neg in (False, True):
+            out.append(frag([atom('C', suffix='?', chain=[('conn', neg, ('>=', 1), dict(prefix=None, sym=s, suffix='?'), 'any')])]))
     # molecule prefixes: every legal combination
     for c in [None] + CHARGE_PREFIX:
         for k in [None] + KIND_PREFIX:
@@ -323,3 +362,13 @@ def small_fragments(thorough=False):
             out.append(frag([atom('C', prefix=p), atom('C', label='c2', bond=(bw, 'c1'))]))
             out.append(frag([atom('C'), atom('C', prefix=p, label='c2', bond=(bw, 'c1'))]))
     return out
+
+
+def alike_variant(frag, lead, gaps, rng):
+    """another layout of the same tokens that `gaps_alike` relates to (lead, gaps): every opaque gap replaced by a random opaque
+    gap, single blanks and closed gaps kept, lead and trail redrawn - the class the proved layout theorem covers"""
+    toks = tokens(frag)
+    pool = ['\n', '\t', '  ', '\n    ', ' \n', '\t\t', '\n\n  ', ' \t ']
+    g2 = [rng.choice(pool) if opaque(g) else g for g in gaps[:-1]] + [rng.choice(['', ' ', '\n', '  \n\t'])]
+    lead2 = rng.choice(['', ' ', '\n', '\t  ', '\n\n'])
+    return lead2 + ''.join(t + g for t, g in zip(toks, g2)), lead2, g2
